@@ -10,6 +10,7 @@ Mutant files: mutants/<prop>/<name>.json = {"file": ..., "find": ..., "replace":
 import json, os, shutil, subprocess, sys, tempfile, concurrent.futures, time
 
 import threading
+RS_FACTS = [None]
 RUST_LOCK = threading.Lock()   # Rust mutants share one cargo target dir: one at a time
 HERE = os.path.dirname(os.path.dirname(os.path.abspath(__file__)))
 REPO = os.environ.get("VERIF_REPO", "/repo")
@@ -23,6 +24,7 @@ def run_one(path):
     scratch = tempfile.mkdtemp(prefix="ts-verif-mut-")
     try:
         rust = any(not e["file"].startswith("lib/src") for e in edits) or m.get("rust")
+        c_only = not rust
         if rust:
             subprocess.run(["rsync", "-a", "--exclude", "target", "--exclude", ".git", "--exclude", "docs", "--exclude", "test/fixtures/grammars",
                             REPO + "/", scratch + "/"], check=True)
@@ -40,6 +42,8 @@ def run_one(path):
             open(p, "w").write(s)
         env = dict(os.environ, VERIF_REPO=scratch, VERIF_OUT=scratch + "/.out", VERIF_MUTANT="1", VERIF_CACHE=scratch + "/.cache",
                    VERIF_RS_TARGET=os.environ.get("VERIF_MUT_RS_TARGET", "/tmp/ts-verif-mut-rs-target"))
+        if c_only and RS_FACTS[0]:
+            env["VERIF_RS_FACTS_DIR"] = RS_FACTS[0]     # C-only mutation: Rust facts are those of the real tree
         if rust:
             RUST_LOCK.acquire()
         t = time.time()
@@ -85,6 +89,12 @@ def main():
         for f in sorted(os.listdir(dd)):
             if f.endswith(".json") and (not name or name in f):
                 paths.append(os.path.join(dd, f))
+    sys.path.insert(0, os.path.join(HERE, "engines"))
+    try:
+        import extract
+        RS_FACTS[0] = extract.rsfacts_dir()
+    except SystemExit as e:
+        print("warning: could not extract Rust facts of the real tree:", e)
     res = []
     with concurrent.futures.ThreadPoolExecutor(j) as ex:
         for r in ex.map(run_one, paths):
